@@ -617,6 +617,261 @@ fn op_sha256(i: &Value) -> R<Value> {
 	Ok(json!({"hex": hex(&HashFunction::Sha256.hash(&msg))}))
 }
 
+// ---- key zoo (py/ext/keyzoo.py, C15): keys made by OpenSSL directly (NOT through acme_common),
+// foreign containers, KeyPair::from_der on given bytes, bulk sign / verify.
+
+/// RSA key built from two generated primes so that the modulus has EXACTLY `bits` bits
+/// (`Rsa::generate` always sets the top two bits of both primes).
+fn rsa_from_primes(bits: u32, ee: &BigNum, tries: &mut u64) -> R<openssl::rsa::Rsa<Private>> {
+	let mut ctx = BigNumContext::new().map_err(e)?;
+	let pbits = ((bits + 1) / 2) as i32;
+	let qbits = bits as i32 - pbits;
+	let one = BigNum::from_u32(1).map_err(e)?;
+	loop {
+		if *tries > 2000 {
+			return Err("rsa_from_primes: gave up".into());
+		}
+		let mut p = BigNum::new().map_err(e)?;
+		let mut q = BigNum::new().map_err(e)?;
+		p.generate_prime(pbits, false, None, None).map_err(e)?;
+		q.generate_prime(qbits, false, None, None).map_err(e)?;
+		if p.ucmp(&q) == std::cmp::Ordering::Less {
+			std::mem::swap(&mut p, &mut q);
+		}
+		let mut n = BigNum::new().map_err(e)?;
+		n.checked_mul(&p, &q, &mut ctx).map_err(e)?;
+		let mut p1 = BigNum::new().map_err(e)?;
+		let mut q1 = BigNum::new().map_err(e)?;
+		p1.checked_sub(&p, &one).map_err(e)?;
+		q1.checked_sub(&q, &one).map_err(e)?;
+		let mut phi = BigNum::new().map_err(e)?;
+		phi.checked_mul(&p1, &q1, &mut ctx).map_err(e)?;
+		let mut d = BigNum::new().map_err(e)?;
+		if n.num_bits() != bits as i32 || p.ucmp(&q) == std::cmp::Ordering::Equal || d.mod_inverse(ee, &phi, &mut ctx).is_err() {
+			*tries += 1;
+			continue;
+		}
+		let mut dmp1 = BigNum::new().map_err(e)?;
+		let mut dmq1 = BigNum::new().map_err(e)?;
+		let mut iqmp = BigNum::new().map_err(e)?;
+		dmp1.nnmod(&d, &p1, &mut ctx).map_err(e)?;
+		dmq1.nnmod(&d, &q1, &mut ctx).map_err(e)?;
+		iqmp.mod_inverse(&q, &p, &mut ctx).map_err(e)?;
+		let rsa = openssl::rsa::Rsa::from_private_components(n, BigNum::from_slice(&ee.to_vec()).map_err(e)?, d, p, q, dmp1, dmq1, iqmp).map_err(e)?;
+		if !rsa.check_key().map_err(e)? {
+			return Err("rsa_from_primes: RSA_check_key rejects the key".into());
+		}
+		return Ok(rsa);
+	}
+}
+
+/// {"kind":"rsa","bits":N,"e":"dec"[,"from_primes":true]} | {"kind":"ec","curve":…[,"min_leading_zero_bytes":k,
+/// "which":"x"|"y"|"both"|"any","explicit":true]} | {"kind":"ed25519"|"ed448"|"x25519"|"x448"} | {"kind":"dsa","bits":N}.
+fn op_gen_raw_key(i: &Value) -> R<Value> {
+	use openssl::ec::{Asn1Flag, EcKey};
+	let mut tries = 1u64;
+	let pk: PKey<Private> = match i["kind"].as_str().unwrap_or("") {
+		"rsa" => {
+			let bits = i["bits"].as_u64().unwrap_or(2048) as u32;
+			let ee = BigNum::from_dec_str(i["e"].as_str().unwrap_or("65537")).map_err(e)?;
+			let rsa = if i["from_primes"].as_bool().unwrap_or(false) {
+				rsa_from_primes(bits, &ee, &mut tries)?
+			} else {
+				openssl::rsa::Rsa::generate_with_e(bits, &ee).map_err(e)?
+			};
+			PKey::from_rsa(rsa).map_err(e)?
+		}
+		"ec" => {
+			let nid = match i["curve"].as_str().unwrap_or("") {
+				"P-256" => Nid::X9_62_PRIME256V1,
+				"P-384" => Nid::SECP384R1,
+				"P-521" => Nid::SECP521R1,
+				"P-224" => Nid::SECP224R1,
+				"secp256k1" => Nid::SECP256K1,
+				"brainpoolP256r1" => Nid::BRAINPOOL_P256R1,
+				c => return Err(format!("unknown curve {c}")),
+			};
+			let mut group = EcGroup::from_curve_name(nid).map_err(e)?;
+			group.set_asn1_flag(if i["explicit"].as_bool().unwrap_or(false) { Asn1Flag::EXPLICIT_CURVE } else { Asn1Flag::NAMED_CURVE });
+			let minz = i["min_leading_zero_bytes"].as_i64().unwrap_or(0) as i32;
+			let which = i["which"].as_str().unwrap_or("any");
+			let max_tries = i["max_tries"].as_u64().unwrap_or(1 << 26);
+			let w = ((group.degree() + 7) / 8) as i32;
+			let mut ctx = BigNumContext::new().map_err(e)?;
+			let mut x = BigNum::new().map_err(e)?;
+			let mut y = BigNum::new().map_err(e)?;
+			let ec = loop {
+				let k = EcKey::generate(&group).map_err(e)?;
+				if minz <= 0 {
+					break k;
+				}
+				k.public_key().affine_coordinates(&group, &mut x, &mut y, &mut ctx).map_err(e)?;
+				let (zx, zy) = (w - x.num_bytes(), w - y.num_bytes());
+				let hit = match which {
+					"x" => zx >= minz,
+					"y" => zy >= minz,
+					"both" => zx >= minz && zy >= minz,
+					_ => zx >= minz || zy >= minz,
+				};
+				if hit {
+					break k;
+				}
+				tries += 1;
+				if tries > max_tries {
+					return Err(format!("no such key in {max_tries} draws"));
+				}
+			};
+			PKey::from_ec_key(ec).map_err(e)?
+		}
+		"ed25519" => PKey::generate_ed25519().map_err(e)?,
+		"ed448" => PKey::generate_ed448().map_err(e)?,
+		"x25519" => PKey::generate_x25519().map_err(e)?,
+		"x448" => PKey::generate_x448().map_err(e)?,
+		"dsa" => PKey::from_dsa(openssl::dsa::Dsa::generate(i["bits"].as_u64().unwrap_or(2048) as u32).map_err(e)?).map_err(e)?,
+		k => return Err(format!("unknown kind {k}")),
+	};
+	Ok(json!({
+		"pem": String::from_utf8_lossy(&pk.private_key_to_pem_pkcs8().map_err(e)?),
+		"der_hex": hex(&pk.private_key_to_der().map_err(e)?),
+		"pkcs8_hex": hex(&pk.private_key_to_pkcs8().map_err(e)?),
+		"raw": raw_parts(&pk).unwrap_or(Value::Null),
+		"tries": tries,
+	}))
+}
+
+/// The same private key in another container.  PEM forms give {"pem"}, DER forms {"der_hex"}; in both cases
+/// `openssl_accepts` / `openssl_pub_der_hex`: what OpenSSL's own reader (no acme_common) makes of the result.
+fn op_reencode(i: &Value) -> R<Value> {
+	let pem = i["pem"].as_str().unwrap_or("");
+	let pk = PKey::private_key_from_pem(pem.as_bytes()).map_err(e)?;
+	let body = || -> String { pem.lines().filter(|l| !l.starts_with("-----")).collect::<Vec<_>>().join("") };
+	let head = pem.lines().next().unwrap_or("").to_string();
+	let foot = pem.lines().last().unwrap_or("").to_string();
+	let wrap = |n: usize| -> String {
+		let b = body();
+		let mut t = format!("{head}\n");
+		for c in b.as_bytes().chunks(n) {
+			t += &format!("{}\n", String::from_utf8_lossy(c));
+		}
+		t + &format!("{foot}\n")
+	};
+	let (text, der): (Option<String>, Option<Vec<u8>>) = match i["form"].as_str().unwrap_or("") {
+		"sec1" | "pkcs1" | "trad-pem" => {
+			let t = match pk.id() {
+				Id::RSA => pk.rsa().map_err(e)?.private_key_to_pem().map_err(e)?,
+				Id::EC => pk.ec_key().map_err(e)?.private_key_to_pem().map_err(e)?,
+				_ => return Err("no traditional PEM form for this key".into()),
+			};
+			(Some(String::from_utf8_lossy(&t).to_string()), None)
+		}
+		"pkcs8-der" => (None, Some(pk.private_key_to_pkcs8().map_err(e)?)),
+		"trad-der" => (None, Some(pk.private_key_to_der().map_err(e)?)),
+		"crlf" => (Some(pem.replace('\n', "\r\n")), None),
+		"no-final-newline" => (Some(pem.trim_end_matches('\n').to_string()), None),
+		"preamble" => (Some(format!("Bag Attributes\n    friendlyName: a key\nKey Attributes: <No Attributes>\n\n{pem}")), None),
+		"trailing-text" => (Some(format!("{pem}\nsome text after the block\n")), None),
+		"one-line" => (Some(wrap(1 << 20)), None),
+		"lines-76" => (Some(wrap(76)), None),
+		"lines-4" => (Some(wrap(4)), None),
+		f => return Err(format!("unknown form {f}")),
+	};
+	let reread = match (&text, &der) {
+		(Some(t), _) => PKey::private_key_from_pem(t.as_bytes()),
+		(_, Some(d)) => PKey::private_key_from_der(d),
+		_ => return Err("nothing".into()),
+	};
+	let mut out = match reread {
+		Ok(k) => json!({"openssl_accepts": true, "openssl_pub_der_hex": hex(&k.public_key_to_der().map_err(e)?)}),
+		Err(x) => json!({"openssl_accepts": false, "openssl_err": e(x)}),
+	};
+	if let Some(t) = text {
+		out["pem"] = json!(t);
+	}
+	if let Some(d) = der {
+		out["der_hex"] = json!(hex(&d));
+	}
+	Ok(out)
+}
+
+/// key_info through KeyPair::from_der on the given bytes.
+fn op_key_info_der(i: &Value) -> R<Value> {
+	let kp = KeyPair::from_der(&unhex(i["der_hex"].as_str().unwrap_or(""))?).map_err(e)?;
+	key_info(&kp)
+}
+
+/// A message: hex string, or {"fill_hex": pattern, "len": n} (the pattern repeated up to n bytes).
+fn zoo_msg(v: &Value) -> R<Vec<u8>> {
+	match v {
+		Value::String(s) => unhex(s),
+		Value::Object(_) => {
+			let pat = unhex(v["fill_hex"].as_str().unwrap_or("00"))?;
+			let n = v["len"].as_u64().unwrap_or(0) as usize;
+			if pat.is_empty() {
+				return Err("empty pattern".into());
+			}
+			Ok(pat.iter().cycle().take(n).cloned().collect())
+		}
+		_ => Err("bad message".into()),
+	}
+}
+
+/// KeyPair::sign on many messages with one loaded key: {"sigs": [{"sig_hex"} | {"err"}]}.
+fn op_sign_many(i: &Value) -> R<Value> {
+	let kp = KeyPair::from_pem(i["pem"].as_str().unwrap_or("").as_bytes()).map_err(e)?;
+	let alg: JwsSignatureAlgorithm = i["alg"].as_str().unwrap_or("").parse().map_err(e)?;
+	let mut sigs = vec![];
+	for m in i["msgs"].as_array().ok_or("msgs")? {
+		sigs.push(match kp.sign(&alg, &zoo_msg(m)?) {
+			Ok(s) => json!({"sig_hex": hex(&s)}),
+			Err(x) => json!({"err": e(x)}),
+		});
+	}
+	Ok(json!({"sigs": sigs}))
+}
+
+/// Independent verification of many signatures under one public key (see op_verify for the forms):
+/// items [{"msg", "r_hex", "s_hex"} | {"msg", "sig_hex"}] -> {"valid": [true | false | "error text"]}.
+fn op_verify_many(i: &Value) -> R<Value> {
+	let pubkey: PKey<Public> =
+		PKey::public_key_from_pem(i["pub_pem"].as_str().unwrap_or("").as_bytes()).map_err(e)?;
+	let alg = i["alg"].as_str().unwrap_or("");
+	let one = |it: &Value| -> R<bool> {
+		let msg = zoo_msg(&it["msg"])?;
+		match alg {
+			"ES256" | "ES384" | "ES512" => {
+				let r = BigNum::from_slice(&unhex(it["r_hex"].as_str().unwrap_or(""))?).map_err(e)?;
+				let s = BigNum::from_slice(&unhex(it["s_hex"].as_str().unwrap_or(""))?).map_err(e)?;
+				let sig = EcdsaSig::from_private_components(r, s).map_err(e)?;
+				let digest = openssl::hash::hash(md_for(alg).unwrap(), &msg).map_err(e)?;
+				let ec = pubkey.ec_key().map_err(e)?;
+				sig.verify(&digest, &ec).map_err(e)
+			}
+			"RS256" => {
+				let mut v = Verifier::new(MessageDigest::sha256(), &pubkey).map_err(e)?;
+				v.update(&msg).map_err(e)?;
+				v.verify(&unhex(it["sig_hex"].as_str().unwrap_or(""))?).map_err(e)
+			}
+			"Ed25519" | "Ed448" => {
+				let want = if alg == "Ed25519" { Id::ED25519 } else { Id::ED448 };
+				if pubkey.id() != want {
+					return Err(format!("not an {alg} key"));
+				}
+				let mut v = Verifier::new_without_digest(&pubkey).map_err(e)?;
+				v.verify_oneshot(&unhex(it["sig_hex"].as_str().unwrap_or(""))?, &msg).map_err(e)
+			}
+			_ => Err(format!("unknown alg {alg}")),
+		}
+	};
+	let mut valid = vec![];
+	for it in i["items"].as_array().ok_or("items")? {
+		valid.push(match one(it) {
+			Ok(b) => json!(b),
+			Err(x) => json!(x),
+		});
+	}
+	Ok(json!({"valid": valid}))
+}
+
 fn dispatch(i: &Value) -> Value {
 	let r = match i["op"].as_str().unwrap_or("") {
 		"ping" => Ok(json!({"pong": true})),
@@ -635,6 +890,11 @@ fn dispatch(i: &Value) -> Value {
 		"tls_chain" => op_tls_chain(i),
 		"pub_of_key" => op_pub_of_key(i),
 		"sha256" => op_sha256(i),
+		"gen_raw_key" => op_gen_raw_key(i),
+		"reencode" => op_reencode(i),
+		"key_info_der" => op_key_info_der(i),
+		"sign_many" => op_sign_many(i),
+		"verify_many" => op_verify_many(i),
 		op => Err(format!("unknown op {op}")),
 	};
 	match r {
